@@ -93,21 +93,30 @@ int main(void) {
         {   /* ---- MIME type rewrite, WBXML side (content context) and XML side (xml_encode_text) */
             static const char *xml_texts[2] = { "application/vnd.syncml-devinf+wbxml", "application/vnd.syncml.dmtnds+wbxml" };
             static const char *xml_want[2] = { "application/vnd.syncml-devinf+xml", "application/vnd.syncml.dmtnds+xml" };
-            unsigned long hits = 0; static unsigned char hit[256][64];
+            unsigned long hits[2] = { 0, 0 }; static unsigned char hit[256][64];
             memset(hit, 0, sizeof hit);
             for (page = 0; page < 256; page++) for (tok = 0; tok < 64; tok++) {
                 WBXMLTagEntry fake = { "x", (WB_UTINY) page, (WB_UTINY) tok, 0 };
                 WBXMLTag tag; WBXMLTreeNode node; int k;
                 WBXMLEncoder *e = wbxml_encoder_create();
-                WB_UTINY buf[64]; WBXMLError r;
+                WB_UTINY buf[64]; WBXMLError r = WBXML_OK;
                 memset(&node, 0, sizeof node); tag.type = WBXML_VALUE_TOKEN; tag.u.token = &fake;
                 node.type = WBXML_TREE_ELEMENT_NODE; node.name = &tag;
                 e->lang = l; e->output = wbxml_buffer_create("", 0, 64); e->output_type = WBXML_ENCODER_OUTPUT_WBXML;
                 e->use_strtbl = FALSE; e->current_tag = &fake; e->current_text_parent = &node; e->tagCodePage = (WB_UTINY) page;
-                strcpy((char *) buf, "application/vnd.syncml-devinf+xml");
-                r = wbxml_encode_value_element_buffer(e, buf, WBXML_VALUE_ELEMENT_CTX_CONTENT);
-                n++;
-                if (r == WBXML_OK && wbxml_buffer_len(e->output) > 10 && strstr((const char *) wbxml_buffer_get_cstr(e->output) + 1, "devinf+wbxml") != NULL) { hit[page][tok] = 1; hits++; }
+                {   /* both texts of the WBXML-side rewrite: devinf (hit bit 1) and dmtnds (hit bit 2) */
+                    static const char *w_texts[2] = { "application/vnd.syncml-devinf+xml", "application/vnd.syncml.dmtnds+xml" };
+                    static const char *w_want[2] = { "devinf+wbxml", "dmtnds+wbxml" };
+                    for (k = 0; k < 2; k++) {
+                        wbxml_buffer_delete(e->output, 0, wbxml_buffer_len(e->output));
+                        strcpy((char *) buf, w_texts[k]);
+                        r = wbxml_encode_value_element_buffer(e, buf, WBXML_VALUE_ELEMENT_CTX_CONTENT);
+                        n++;
+                        if (r == WBXML_OK && wbxml_buffer_len(e->output) > 10 && strstr((const char *) wbxml_buffer_get_cstr(e->output) + 1, w_want[k]) != NULL) {
+                            hit[page][tok] |= (unsigned char) (1 << k); hits[k]++;
+                        }
+                    }
+                }
                 e->current_tag = NULL; e->current_text_parent = NULL;
                 wbxml_buffer_destroy(e->output); e->output = NULL; e->lang = NULL;
                 wbxml_encoder_destroy(e);
@@ -127,8 +136,15 @@ int main(void) {
                     wbxml_encoder_destroy(e);
                 }
             }
-            if (hits == 256UL * 64UL) printf("E %d contentany 0 0 mime\n", (int) l->langID);
-            else for (page = 0; page < 256; page++) for (tok = 0; tok < 64; tok++) if (hit[page][tok]) printf("E %d content %d %d mime\n", (int) l->langID, page, tok);
+            {
+                int k;
+                for (k = 0; k < 2; k++) {
+                    const char *kind = k == 0 ? "mime" : "mimedm";
+                    if (hits[k] == 256UL * 64UL) printf("E %d contentany 0 0 %s\n", (int) l->langID, kind);
+                    else for (page = 0; page < 256; page++) for (tok = 0; tok < 64; tok++)
+                        if (hit[page][tok] & (1 << k)) printf("E %d content %d %d %s\n", (int) l->langID, page, tok, kind);
+                }
+            }
         }
         if (l->tagTable != NULL) {   /* ---- table option BINARY, on the real rows */
             const WBXMLTagEntry *row;
@@ -143,8 +159,22 @@ int main(void) {
                 e->use_strtbl = FALSE; e->current_tag = row; e->tagCodePage = row->wbxmlCodePage;
                 r = parse_text(e, &text);
                 n++;
-                if (r == WBXML_OK && starts(e->output, o_int, 4) && wbxml_buffer_len(e->output) == 4)
-                    printf("B %d %d %d\n", (int) l->langID, row->wbxmlCodePage, row->wbxmlToken);
+                {
+                    int v1 = (r == WBXML_OK && starts(e->output, o_int, 4) && wbxml_buffer_len(e->output) == 4), v2;
+                    /* second variant: current_tag already reset (not the first child), the element is found through the parent */
+                    WBXMLTag ptag; WBXMLTreeNode pnode;
+                    memset(&pnode, 0, sizeof pnode); ptag.type = WBXML_VALUE_TOKEN; ptag.u.token = row;
+                    pnode.type = WBXML_TREE_ELEMENT_NODE; pnode.name = &ptag; text.parent = &pnode;
+                    wbxml_buffer_delete(e->output, 0, wbxml_buffer_len(e->output));
+                    wbxml_buffer_destroy(text.content); text.content = wbxml_buffer_create(bin, 2, 2);
+                    e->current_tag = NULL;
+                    r = parse_text(e, &text);
+                    n++;
+                    v2 = (r == WBXML_OK && starts(e->output, o_int, 4) && wbxml_buffer_len(e->output) == 4);
+                    text.parent = NULL;
+                    if (v1 && v2) printf("B %d %d %d\n", (int) l->langID, row->wbxmlCodePage, row->wbxmlToken);
+                    else if (v1 != v2) printf("M %d %d %d %d %d\n", (int) l->langID, row->wbxmlCodePage, row->wbxmlToken, v1, v2);
+                }
                 e->current_tag = NULL; wbxml_buffer_destroy(text.content);
                 wbxml_buffer_destroy(e->output); e->output = NULL; e->lang = NULL; wbxml_encoder_destroy(e);
                 /* XML side */
